@@ -701,28 +701,7 @@ def main(ctx):
     ctx.trusted_base += ["Go race detector (ThreadSanitizer runtime) and its report format", "dlclark/regexp2 and Go regexp engines are goroutine-safe as documented",
                          "extract/c16.go syntactic alias/escape analysis (no type checker): field types from struct declarations"]
 
-    # 1. regenerate + Lean
-    regen_ok = ctx.regen()
-    ctx.obligation("tie.regen", "tie", regen_ok, "extractor ran" if regen_ok else "extractor failed")
-    # the model driver imports only the hand-written model: build it on its own, so that a broken Props/Tie theorem
-    # (= a changed source) never takes the correspondence down with it
-    drv_ok, _ = ctx.lake_build(["model_c16"])
-    ok, errs = ctx.lake_build(["GojaModel.C16.Props", "GojaModel.C16.Tie"])
-    lean_ok = ok
-    if ok:
-        ctx.audit("GojaModel.C16.Props", expect_min=22)
-        ctx.audit("GojaModel.C16.Tie", expect_min=12)
-        if ctx.tier == "thorough":
-            ctx.leanchecker("GojaModel.C16.Props")
-    model = ctx.model_exe()
-    model_ok = drv_ok and os.path.exists(model)
-    proto = proto_from_generated()
-    ctx.stats["protocol_shape"] = proto
-    ctx.log("lean done; building harness (-race)")
-    # 2. harness (race build)
-    exe = ctx.go_build(race=True)
-    if exe is None:
-        return ctx.finish(level="proof", rule="harness did not build")
+    # (Lean and the harness are built concurrently below, once the cases are generated)
 
     # 3. cases
     corpus = load_corpus()
@@ -762,10 +741,61 @@ def main(ctx):
         meta.append({"src": "prim"})
 
     shards = 6 if quick else 14
-    ctx.log("running %d cases in %d shards" % (len(cases), shards))
-    t0 = time.time()
-    answers, races, problems, fatals = run_sharded(ctx, exe, cases, shards, timeout=240 if quick else 2400)
-    ctx.stats["harness_wall_s"] = round(time.time() - t0, 1)
+
+    # 1+2. two independent pipelines run side by side (the Lean side needs no Go binary, the harness needs no Lean):
+    #   A: regenerate facts -> build the model driver (imports only the hand-written model, so a broken Props/Tie theorem
+    #      never takes the correspondence down) -> re-check Props + Tie -> the two audits in parallel (-> leanchecker)
+    #   B: build the harness with -race -> run all cases
+    def lean_side():
+        t = time.time()
+        regen_ok = ctx.regen()
+        ctx.obligation("tie.regen", "tie", regen_ok, "extractor ran" if regen_ok else "extractor failed")
+        drv_ok, _ = ctx.lake_build(["model_c16"])
+        ok, errs = ctx.lake_build(["GojaModel.C16.Props", "GojaModel.C16.Tie"])
+        ctx.log("lean: regenerated + built in %.1fs" % (time.time() - t))
+        if ok:
+            # every theorem of Props is audited for axioms on every run; the Tie theorems (all `decide`/`rfl` over regenerated
+            # data) were just re-checked by `lake build` — the quick tier records them from that build and leaves their axiom
+            # audit (one more Lean process that has to import Lean.Elab) to the thorough tier
+            with ThreadPoolExecutor(max_workers=3) as ex:
+                fs = [ex.submit(ctx.audit, "GojaModel.C16.Props", 22)]
+                if ctx.tier == "thorough":
+                    fs.append(ex.submit(ctx.audit, "GojaModel.C16.Tie", 13))
+                    fs.append(ex.submit(ctx.leanchecker, "GojaModel.C16.Props"))
+                for f in fs:
+                    f.result()
+            if ctx.tier != "thorough":
+                tie_src = open(os.path.join(LEAN, "GojaModel", "C16", "Tie.lean")).read()
+                names = re.findall(r"^theorem\s+(\S+)", tie_src, re.M)
+                for n in names:
+                    ctx.obligation("thm:GojaModel.C16.Tie.%s" % n, "theorem", True, "re-checked by lake build (axiom audit in the thorough tier)")
+                ctx.obligation("tie:theorems-present", "tie", len(names) >= 13, "%d Tie theorems" % len(names))
+        ctx.log("lean side done in %.1fs" % (time.time() - t))
+        return drv_ok, ok
+
+    def go_side():
+        t = time.time()
+        exe = ctx.go_build(race=True)
+        ctx.log("harness built (-race) in %.1fs" % (time.time() - t))
+        if exe is None:
+            return None, None
+        ctx.log("running %d cases in %d shards" % (len(cases), shards))
+        t0 = time.time()
+        res = run_sharded(ctx, exe, cases, shards, timeout=600 if quick else 3000)
+        ctx.stats["harness_wall_s"] = round(time.time() - t0, 1)
+        return exe, res
+
+    with ThreadPoolExecutor(max_workers=2) as ex:
+        fl, fg = ex.submit(lean_side), ex.submit(go_side)
+        drv_ok, lean_ok = fl.result()
+        exe, res = fg.result()
+    model = ctx.model_exe()
+    model_ok = drv_ok and os.path.exists(model)
+    proto = proto_from_generated()
+    ctx.stats["protocol_shape"] = proto
+    if exe is None:
+        return ctx.finish(level="proof", rule="harness did not build")
+    answers, races, problems, fatals = res
     ctx.log("harness done: %d race reports" % len(races))
     ctx.obligation("corr:harness-ran", "correspondence", not problems, "; ".join(problems)[:1500])
 
